@@ -25,7 +25,7 @@ PROPS = {
         "engine": "B", "level": "exploration",
         "tiers": {"quick": {"batches": 16, "runs": 250, "budget_s": 50, "floor_runs": 800},
                   "thorough": {"batches": 32, "runs": 5000, "budget_s": 900, "floor_runs": 60000}},
-        "rule": "one run = one well-formed builder program on one shared Hugr: root drawn among Module / Dfg / Function / Cfg / Conditional / TailLoop / TrackedDfg; every open builder (function body, nested DFG, case, basic block, loop body) and every container controller (module, conditional, CFG) is an actor and the seeded scheduler picks which one makes the next public call (add_op / add / extend / load / call / load_function / add_nested / add_cfg / add_conditional / add_if / add_else / add_tail_loop / define_function / declare_function / add_state_order / add_entry / add_block / add_successor / branch / branch_exit / set_outputs ...); type-directed generation over copyable, linear, sum, tuple, function, extension and variable types with Ext and Dom wires, multi-output ops partially used, constants in outer scopes, recursion, polymorphic and row-polymorphic callees; the serialised result is judged by a reference validator written from validate.rs; non-trivial = >= 3 builder calls; distinct = distinct event-log digests",
+        "rule": "one run = one well-formed builder program on one shared Hugr: root drawn among Module / Dfg / Function / Cfg / Conditional / TailLoop / TrackedDfg; every open builder (function body, nested DFG, case, basic block, loop body) and every container controller (module, conditional, CFG) is an actor and the seeded scheduler picks which one makes the next public call (add_op / add / extend / load / call / load_function / add_nested / add_cfg / add_conditional / add_if / add_else / add_tail_loop / define_function / declare_function / add_state_order / add_entry / add_block / add_successor / branch / branch_exit / set_outputs ...); type-directed generation over copyable, linear, sum, tuple, function, extension and variable types with Ext and Dom wires, multi-output ops partially used, constants in outer scopes, recursion, polymorphic and row-polymorphic callees, detached builders attached with insert_*, TrackedDfg commands by index, graph-level scratch nodes deleted later (index reuse inside builder programs), arguments linked after call(); the serialised result (at the end and at every quiescent point) is judged by a reference validator written from validate.rs; non-trivial = >= 3 builder calls; distinct = distinct event-log digests",
         "real": ["all builders (Dfg, Function, Module, Cfg/Block, Conditional/Case/If/Else, TailLoop, TrackedDfg), ops, tys, val, graph store, JSON serialiser"],
         "stub": ["hugr validate (Rust) -> oracles/refvalidate.py"],
         "expected_probes": ["ext_edge", "dom_edge", "multi_output_op", "const_in_outer_scope", "const_under_cfg", "const_loaded_again",
@@ -34,7 +34,7 @@ PROPS = {
                             "insert_detached:dfg", "insert_detached:cfg", "insert_detached:conditional", "insert_detached:tailloop",
                             "tracked_index_command", "quiescent_point_validated", "discharge_conditional"],
         "technique": "seeded interleaving of open builder actors on one shared Hugr (type-directed well-formed programs), output checked by a reference validator written from validate.rs",
-        "level_text": "C01 quantifies over builder programs including the interleaving of calls on several open builders, which is where the builders' port bookkeeping and order-edge insertion depend on history. The check samples that space with a seeded scheduler over builder actors and judges each product with an independent implementation of the validity rules the statement lists (parent/child pairs, I/O positions and rows, port counts, edge kinds and types, acyclicity, order edges for Ext edges, dominance, no value edge into a function, constants inhabiting their type).", "level_note": "Trusted: oracles/refsem.py + refvalidate.py (written from hugr-core validate.rs / ops/validate.rs; clauses named in DESIGN Appendix B). Not checked: extension-delta inference, TypeArg-vs-TypeParam checks, Call instantiation == substitution, opaque-op resolution (extension ops are taken at their written signature). Program-space bounds: canonical sum representation (never a general sum whose rows are all empty), no detached insert_* in this property's workload (covered by C08), Dom wires only in a block's own calls.",
+        "level_text": "C01 quantifies over builder programs including the interleaving of calls on several open builders, which is where the builders' port bookkeeping and order-edge insertion depend on history. The check samples that space with a seeded scheduler over builder actors and judges each product with an independent implementation of the validity rules the statement lists (parent/child pairs, I/O positions and rows, port counts, edge kinds and types, acyclicity, order edges for Ext edges, dominance, no value edge into a function, constants inhabiting their type).", "level_note": "Trusted: oracles/refsem.py + refvalidate.py (written from hugr-core validate.rs / ops/validate.rs; clauses named in DESIGN Appendix B). Not checked: extension-delta inference, TypeArg-vs-TypeParam checks, Call instantiation == substitution, opaque-op resolution (extension ops are taken at their written signature). Also checked although the Rust validator does not: one edge per incoming value / static port (specification/hugr.md). Program-space bounds: Dom wires only in a block's own calls (a nested builder refuses them by design); generated types are drawn from Bool / Qubit / int<w> / float64 / string / unit sums / tuples / options / eithers / general sums (incl. all-empty-row forms) / function types / type and row variables / array / list.",
     },
     "C02": {
         "engine": "A+B+C", "level": "exploration",
